@@ -165,7 +165,8 @@ def _mk(rng, algo, vect, T, E, shared, other, flags=None, **kw):
         "E": int(E),
         "shared": int(shared),
         "other": int(other),
-        "obs": kw.get("obs") or ("dict" if rng.random() < 0.3 else "vector"),
+        "obs": kw.get("obs") or ("dict", "dict", "image", "vector", "vector", "vector", "vector")[int(rng.integers(0, 7))],
+        "norm_img": bool(rng.random() < 0.5),
         "act": kw.get("act") or ("discrete", "box2", "box1")[int(rng.integers(0, 3))],
         "gamma": float(kw["gamma"]) if "gamma" in kw else float(GRID[int(rng.integers(0, 4))]),
         "lam": float(kw["lam"]) if "lam" in kw else float(GRID[int(rng.integers(0, 4))]),
@@ -180,6 +181,7 @@ def _mk(rng, algo, vect, T, E, shared, other, flags=None, **kw):
         # agent ids whose order in the environment / the dictionaries is not the lexicographic one (agent_1 before
         # agent_0; agent_9, agent_10, agent_11 as in environments with more than ten agents)
         "names": ("asc", "asc", "desc", "wide")[int(rng.integers(0, 4))],
+        "reward_int": bool(rng.random() < 0.2),
     }
     if c["hp_change"] == "mutation":
         # grow / shrink of 0 stays 0: start from values a mutation really changes
@@ -326,6 +328,10 @@ class Rollout:
         self.LP = table(-1.0, 1024.0, 3.0)  # log-probs are negative
         self.V = table(1.0, 256.0, 4.0)
         self.R = table(1.0, 16.0, 4.0)
+        self.reward_int = bool(case.get("reward_int"))
+        if self.reward_int:
+            # environments that hand out integer rewards (np.int64 arrays / python ints): pairwise distinct integers
+            self.R = np.concatenate([[0.0], (rng.permutation(n) + 1 - n // 2) * 2.0]).astype(np.float32)
         self.flag = [[int(ch) for ch in s] for s in case["flags"]]
         assert len(self.flag) == self.ncol and all(len(f) == T for f in self.flag)
         self.first_boundary = [(f.index(1) + 1) if 1 in f else None for f in self.flag]
@@ -375,12 +381,16 @@ class Rollout:
         other = ai >= self.case["shared"]
         if self.obs_kind == "dict":
             return {"a": (0, 3), "b": (3, 2)}
+        if self.obs_kind == "image":
+            return {None: (0, 8)}  # the 8 features as a (1, 2, 4) image whose bounds are not [0, 1]
         return {None: (0, 4 if other else 3)}
 
     def obs_space(self, ai):
         from gymnasium import spaces
 
         lv = self.leaves(ai)
+        if self.obs_kind == "image":
+            return spaces.Box(-8.0, 8.0, (1, 2, 4), np.float32)
         if None in lv:
             return spaces.Box(-8.0, 8.0, (lv[None][1],), np.float32)
         return spaces.Dict({k: spaces.Box(-8.0, 8.0, (d,), np.float32) for k, (_o, d) in lv.items()})
@@ -402,6 +412,8 @@ class Rollout:
 
     def obs_of(self, ai, x):
         lv = self.leaves(ai)
+        if self.obs_kind == "image":
+            return self.leaf_vec(x, *lv[None]).reshape(1, 2, 4)
         if None in lv:
             return self.leaf_vec(x, *lv[None])
         return {k: self.leaf_vec(x, o, d) for k, (o, d) in lv.items()}
@@ -429,7 +441,7 @@ class Rollout:
                 st.append(self._stack_obs([self.obs_of(ai, g) for g in gs]))
                 ac.append(np.stack([self.act_of(g) for g in gs]))
                 lp.append(np.asarray([self.LP[g] for g in gs], dtype=np.float32))
-                rw.append(np.asarray([self.R[g] for g in gs], dtype=np.float64))
+                rw.append(np.asarray([self.R[g] for g in gs], dtype=np.int64 if self.reward_int else np.float64))
                 vl.append(np.asarray([self.V[g] for g in gs], dtype=np.float32))
                 if t == 0:
                     dn.append(np.zeros(E))
@@ -440,7 +452,7 @@ class Rollout:
                 st.append(self.obs_of(ai, g))
                 ac.append(self.act_of(g))
                 lp.append(np.float32(self.LP[g]))
-                rw.append(float(self.R[g]))
+                rw.append(int(self.R[g]) if self.reward_int else float(self.R[g]))
                 vl.append(np.float32(self.V[g]))
                 d = 0 if t == 0 else self.flag[ai * E][t - 1]
                 if flag_style == "scalar":
@@ -470,6 +482,8 @@ class Rollout:
 
 # ====================================================================== agents
 def _net_config(obs_kind):
+    if obs_kind == "image":
+        return {"encoder_config": {"channel_size": [4], "kernel_size": [2], "stride_size": [1]}, "head_config": {"hidden_size": [8]}}
     if obs_kind == "dict":
         return {"encoder_config": {"latent_dim": 8, "vector_space_mlp": False}, "head_config": {"hidden_size": [8]}}
     return {"encoder_config": {"hidden_size": [8]}, "head_config": {"hidden_size": [8]}}
@@ -484,6 +498,7 @@ def _build_agent(case, ro: Rollout, gamma, lam, hp_config=None):
         gae_lambda=lam,
         lr=1e-4,
         hp_config=hp_config,
+        normalize_images=bool(case.get("norm_img", True)),
     )
     if case["algo"] == "PPO":
         from agilerl.algorithms.ppo import PPO
